@@ -6,7 +6,7 @@ from xml.etree import ElementTree
 
 from .comparaminstance import ComparamInstance
 from .diagcomm import DiagComm
-from .exceptions import DecodeError, DecodeMismatch, odxassert, odxraise, odxrequire
+from .exceptions import DecodeError, odxassert, odxraise, odxrequire
 from .message import Message
 from .nameditemlist import NamedItemList
 from .odxlink import OdxDocFragment, OdxLinkDatabase, OdxLinkId, OdxLinkRef
@@ -280,10 +280,12 @@ class DiagService(DiagComm):
                         service=self,
                         coding_object=coding_object,
                         param_dict=coding_object.decode(raw_message)))
-            except DecodeMismatch:
+            except DecodeError:
                 # An NRC-CONST or environment data parameter
-                # encountered a non-matching value -> coding object
-                # does not apply
+                # encountered a non-matching value (DecodeMismatch)
+                # or the message cannot be decoded using the coding
+                # object for a different reason, e.g., because it is
+                # too short -> coding object does not apply
                 pass
 
         if len(result_list) < 1:
